@@ -52,6 +52,25 @@ LESSON = {
     "C17f": "missed in the quick tier (needs the best initial agent in the last slot of an odd-sized population: < 1 expected run per batch) -> more odd sizes and shrunken problems in C17, value-dependent slowness fault (good points complete last); caught by the thorough tier",
     "C18f": "caught by the check as it stood",
     "C19f": "missed (real optimizers were tuned only in a few fixed scenarios) -> any of the 84 optimizers tuned over its own parameters on a seeded task; every trial must equal a freshly constructed optimizer's run",
+    # round 7 (suffix g); for the changes marked "by inspection" the first verdict was not measured by a run: the
+    # scenario space as it stood could not contain the trigger (no run of 1000 cycles, no shared EarlyStopping object, ...)
+    "C01g": "caught (needs an objective that is exactly 0.0 on a region: the hinge family added in round 6)",
+    "C02g": "caught by the check as it stood (narrow boxes far from the origin, a lesson of round 3)",
+    "C03g": "missed by inspection (needs > 1000 recorded generations) -> one run of every optimizer per batch executes 1000-2001 cycles (shrunken problem, serial)",
+    "C04g": "missed by inspection (needs ONE EarlyStopping object shared by two configurations) -> shared EarlyStopping objects in engine G (another configuration built first) and in C04's scripted histories (prior configurations)",
+    "C05g": "caught (tasks with more than 128 variables, a lesson of round 6)",
+    "C06g": "missed: the harness switched NumPy's warnings off at the source (np.seterr(all='ignore')), so a leaked 'error' warning filter had nothing to turn into an exception -> NumPy keeps its default error state, warnings are filtered; the list of warning filters is process-private in the fork model",
+    "C07g": "missed by inspection (needs an aborted pooled run in the same process before the seeded run) -> C07: between run A and run B a pooled run is aborted by a failing objective evaluation; leftover pool threads keep running in the simulator exactly as after shutdown(wait=False)",
+    "C08g": "missed by inspection (C08 ran at most 8 cycles in the quick tier; the schedule switches at max_cycles/2 >= 6) -> 25 % of the C08 cases run 11-40 cycles",
+    "C09g": "caught once seeded tasks entered the pooled scenarios (25 % of engine-G tasks carry an integer seed); the race window is opened by the shared-write probe's directed pre-emption (round 2)",
+    "C10g": "missed by inspection (needs an objective that raises StopIteration inside a cycle) -> typed objective failures (StopIteration weighted up) in engine G; a run that swallows the failure and returns is judged by the usual oracles.  The same pattern turned out to exist on the unchanged tree (Water Cycle, fixed: 812b87b)",
+    "C11g": "missed by inspection (no worker crash in the C11 profile) -> worker_crash in 4 % of the process-mode scenarios of engine G; a BrokenProcessPool after an injected crash is the fault propagating, a result with agents missing is a violation",
+    "C12g": "caught by the check as it stood (multi-objective family with weights under max)",
+    "C15g": "missed by inspection (needs > 1000 recorded generations) -> same thousand-cycle runs as C03g",
+    "C17g": "caught by the check as it stood (negative costs near the optimum: objectives with a constant subtracted, max tasks)",
+    "C18g": "caught by the check as it stood (candidate dictionaries with dropped keys on a configured instance)",
+    "C19g": "missed by inspection (grid values were never objects) -> C19: an EarlyStopping OBJECT as a grid value together with a short and a longer cycle budget, every trial compared with a freshly constructed optimizer",
+    "C20g": "missed by inspection (all algorithms and tasks had distinct classes) -> scenarios in which a class appears twice, recorder keyed by index.  The check then failed on the UNCHANGED tree: two genuine defects, fixed (122c266); the change was re-expressed on top of the fix",
     "C20f": "missed (no failing objective in C20) -> typed objective failures (TypeError, AttributeError, PicklingError, ...) injected into Multitask runs; every started run must have its designated mode",
 }
 
